@@ -1,16 +1,26 @@
-import Gallia.Proofs.Lemmas.Scans
+import Gallia.Proofs.Lemmas.ScansId
+import Gallia.Proofs.Lemmas.ScansWire
+import Gallia.Proofs.Lemmas.ScansCheck
+import Gallia.Proofs.Lemmas.ScansBound
+import Gallia.Proofs.Lemmas.ScansCompat
 import Gallia.Gen.C10
 /-
   C10 — Service and identifier scans report what the ECU really supports, nothing else.
 
-  Two kinds of statement:
-  * for **every** ECU (any step function, any state): which requests the scanners put on the wire
-    (`probes_only_selected`, `probes_cover`, `skip_respected`);
+  Three kinds of statement, all for every configuration (`--check-session` on / off, `--reset`, session hooks):
+  * for **every** ECU (any step function, any state) with a request log (`Logs`: one entry per exchange — `logged e` —
+    or one entry per transmission — the real client loop over a logging wire ECU, `client_logs`): which requests the
+    scanners put on the wire, also in runs that are given up or die (`probes_only_selected`, `probes_cover`,
+    `skip_respected`, `scan_requests`, `skipped_session_not_requested`, `ident_requests_only`);
   * for every **session-determined ECU obeying the ISO default rule** (`SessEcu`, `IsoServiceRule`; the class the
     virtual ECU of C13 belongs to): what is reported (`found_supported`, `found_complete`, `scan_sound`,
-    `scan_complete`) and what is counted (`ident_count`, `ident_requests`).
-  Configuration domain of the theorems: `--check-session` off (the model and the correspondence cover it; the
-  session check only adds `22 F1 86` / `10 xx` exchanges), `--skip-not-supported` off for the count.
+    `scan_complete`, `scan_exact`, `reset_same_result`) and what is counted (`ident_count`, `ident_scan_counts`);
+  * for the client loop between scanner and wire: `pending_transparent`, `stuck_needs_max_pending`;
+  * for ECUs that **lose the session silently** (`AnsBySession`: answers determined by a session component that may
+    change in any way) and read it back honestly: what `--check-session` buys (`check_establishes_session`,
+    `probes_in_claimed_session_checked`, `found_supported_checked`, `lost_session_reports_nothing`,
+    `given_up_scan_exits_1`);
+  * termination with an explicit bound on the number of requests (`requests_bounded`).
 -/
 namespace Gallia.C10
 open Gallia Gallia.Scans
@@ -29,6 +39,21 @@ theorem tables_agree :
     Gen.C10.identQuiet = [ROOR, SFNS] ∧
     Gen.C10.routineSubFuncs = routineSubFuncs := by decide
 
+/-- (T) the literal limits of the session check, the reset / wait path and the client loop as the running code has
+    them: retries of `check_and_set_session` and of its read-back, `max_retry` per call site, `MAX_N_PENDING`, the
+    10 s / 0.5 s / 0.5 s of `wait_for_ecu`, the levels of `leave_session`, the session data identifier -/
+theorem limits_agree :
+    Gen.C10.brr = BRR ∧ Gen.C10.rcrrp = RCRRP ∧ Gen.C10.maxNPending = maxPending ∧
+    Gen.C10.checkRetries = checkRetries ∧ Gen.C10.idCheckRetries = checkRetries ∧ Gen.C10.checkRoundsExtra = 1 ∧
+    svcRetry readSessionPdu = Gen.C10.checkRetries ∧ svcRetry (probePdu 0x22 3) = Gen.C10.svcMaxRetry ∧
+    svcRetry (dscPdu 2) = Gen.C10.svcMaxRetry ∧ svcRetry pingPdu = Gen.C10.svcMaxRetry ∧
+    idRetry 7 [] readSessionPdu = Gen.C10.idCheckRetries ∧ idRetry 7 [] [0x2E, 0x00, 0x01] = Gen.C10.idProbeRetry ∧
+    idRetry 7 [] pingPdu = Gen.C10.pingMaxRetry ∧ idRetry 7 [] (dscPdu 2) = 7 ∧
+    idRetry 7 [] (resetPdu Gen.C10.leaveReset) = 7 ∧
+    Gen.C10.waitTimeoutHalf = waitBudget ∧ Gen.C10.waitSleepHalf = 1 ∧ Gen.C10.pingTimeoutHalf = 1 ∧
+    Gen.C10.leaveReset = 1 ∧ Gen.C10.leaveSession = 1 ∧
+    readSessionPdu = 0x22 :: toBE Gen.C10.sessionDid 2 := by decide
+
 /-- every service id 0x00..0xFF is a candidate, response ids (bit 6) only when asked, skipped ids never -/
 theorem selection (cfg : SvcCfg) (session : Option Nat) (sid : Nat) :
     sidSelected cfg session sid = true ↔
@@ -36,105 +61,259 @@ theorem selection (cfg : SvcCfg) (session : Option Nat) (sid : Nat) :
   simp only [sidSelected]
   by_cases h : sid &&& 0x40 = 0 <;> cases cfg.scanResponseIds <;> cases skipped cfg.skip session sid <;> simp [h]
 
-/-- for ANY ECU: `perform_scan` only ever sends probes `sid 00..` of selected service ids with one of the
-    probe lengths — in particular nothing for an id the skip option names -/
-theorem probes_only_selected (e : Ecu σ) (cfg : SvcCfg) (hc : cfg.checkSession = false) (session : Option Nat)
-    (s : σ) (log : List Bytes) :
-    ∃ out new, performScan (logged e) cfg session (s, log) = .ok out ∧ out.state.2 = new ++ log ∧
+/-! ### what goes on the wire — any ECU, any configuration, any outcome of the run -/
+
+/-- for ANY ECU with a request log and ANY configuration: `perform_scan` only ever sends probes `sid 00..` of selected
+    service ids with one of the probe lengths and — with `--check-session` — the requests of the session check (the
+    `22 F1 86` read-back, `10 k`, the session hooks of `k`); also when the scan is given up or dies -/
+theorem probes_only_selected {e : Ecu σ} {log : σ → List Bytes} {N : Nat} (L : Logs e log N) (cfg : SvcCfg)
+    (session : Option Nat) (s : σ) :
+    ∃ new, log (performScan e cfg session s).1 = new ++ log s ∧
+      ∀ r ∈ new,
+        (∃ sid, sid < 256 ∧ sidSelected cfg session sid = true ∧ ∃ l ∈ probeLengths, r = probePdu sid l) ∨
+        (cfg.checkSession = true ∧ ∃ k, session = some k ∧
+          (r = readSessionPdu ∨ r = dscPdu k ∨ r ∈ cfg.hooks.pre k ∨ r ∈ cfg.hooks.post k)) :=
+  performScanFrom_sends L cfg session allSids allSids_lt s
+
+/-- ... in particular nothing but probes when `--check-session` is off (or no session list is given) -/
+theorem probes_only_selected_unchecked {e : Ecu σ} {log : σ → List Bytes} {N : Nat} (L : Logs e log N) (cfg : SvcCfg)
+    (session : Option Nat) (hc : cfg.checkSession = false ∨ session = none) (s : σ) :
+    ∃ new, log (performScan e cfg session s).1 = new ++ log s ∧
       ∀ r ∈ new, ∃ sid, sid < 256 ∧ sidSelected cfg session sid = true ∧ ∃ l ∈ probeLengths, r = probePdu sid l := by
-  obtain ⟨out, new, h1, h2, h3, _⟩ := performScanFrom_log e cfg hc session allSids (s, log)
-  refine ⟨out, new, h1, h2, ?_⟩
-  intro r hr
-  obtain ⟨sid, hs, rest⟩ := h3 r hr
-  exact ⟨sid, allSids_lt sid hs, rest⟩
+  obtain ⟨new, h1, h2⟩ := probes_only_selected L cfg session s
+  refine ⟨new, h1, fun r hr => ?_⟩
+  rcases h2 r hr with h | ⟨hc', k, hk, _⟩
+  · exact h
+  · rcases hc with hc | hc
+    · rw [hc] at hc'; cases hc'
+    · rw [hc] at hk; cases hk
 
-/-- for ANY ECU: every selected service id 0x00..0xFF is probed -/
-theorem probes_cover (e : Ecu σ) (cfg : SvcCfg) (hc : cfg.checkSession = false) (session : Option Nat)
-    (s : σ) (log : List Bytes) :
-    ∃ out new, performScan (logged e) cfg session (s, log) = .ok out ∧ out.state.2 = new ++ log ∧
+/-- for ANY ECU: a scan of a session that ends normally and was not given up has probed every selected service id
+    0x00..0xFF -/
+theorem probes_cover {e : Ecu σ} {log : σ → List Bytes} {N : Nat} (L : Logs e log N) (cfg : SvcCfg)
+    (session : Option Nat) (s : σ) (out : ScanOut) (hout : (performScan e cfg session s).2 = .ok out)
+    (hab : out.abortedAt = none) :
+    ∃ new, log (performScan e cfg session s).1 = new ++ log s ∧
       ∀ sid, sid < 256 → sidSelected cfg session sid = true → probePdu sid 1 ∈ new := by
-  obtain ⟨out, new, h1, h2, _, h4⟩ := performScanFrom_log e cfg hc session allSids (s, log)
-  exact ⟨out, new, h1, h2, fun sid hs hsel => h4 sid (by simp [allSids, hs]) hsel⟩
+  obtain ⟨new, h1, h2⟩ := performScanFrom_cover L cfg session allSids allSids_lt s out hout hab
+  exact ⟨new, h1, fun sid hs hsel => h2 sid (by simp [allSids, hs]) hsel⟩
 
-/-- for ANY ECU: no request for a skipped service id leaves the scanner during the scan of that session -/
-theorem skip_respected (e : Ecu σ) (cfg : SvcCfg) (hc : cfg.checkSession = false) (k : Nat)
-    (s : σ) (log : List Bytes) (sid : Nat) (hs : sid < 256) (hskip : skipped cfg.skip (some k) sid = true) :
-    ∃ out new, performScan (logged e) cfg (some k) (s, log) = .ok out ∧ out.state.2 = new ++ log ∧
-      ∀ r ∈ new, r.head? ≠ some (b sid) := by
-  obtain ⟨out, new, h1, h2, h3⟩ := probes_only_selected e cfg hc (some k) s log
-  refine ⟨out, new, h1, h2, ?_⟩
-  intro r hr hhead
-  obtain ⟨sid', hs', hsel, l, _, rfl⟩ := h3 r hr
-  rw [probePdu_head] at hhead
-  injection hhead with hhead
-  have := b_inj hs' hs hhead
-  subst this
-  rw [(selection cfg (some k) sid').mp hsel |>.2] at hskip
-  cases hskip
+/-- for ANY ECU and ANY configuration: during the scan of session `k` no probe of a service id that the skip option
+    names for `k` leaves the scanner; the only requests that can carry that id are those of the session check -/
+theorem skip_respected {e : Ecu σ} {log : σ → List Bytes} {N : Nat} (L : Logs e log N) (cfg : SvcCfg) (k : Nat)
+    (s : σ) (sid : Nat) (hs : sid < 256) (hskip : skipped cfg.skip (some k) sid = true) :
+    ∃ new, log (performScan e cfg (some k) s).1 = new ++ log s ∧
+      ∀ r ∈ new, r.head? ≠ some (b sid) ∨
+        (cfg.checkSession = true ∧ (r = readSessionPdu ∨ r = dscPdu k ∨ r ∈ cfg.hooks.pre k ∨ r ∈ cfg.hooks.post k)) := by
+  obtain ⟨new, h1, h2⟩ := probes_only_selected L cfg (some k) s
+  refine ⟨new, h1, fun r hr => ?_⟩
+  rcases h2 r hr with ⟨sid', hs', hsel, l, _, rfl⟩ | ⟨hc, k', hk', hm⟩
+  · left
+    intro hhead
+    rw [probePdu_head] at hhead
+    injection hhead with hhead
+    have := b_inj hs' hs hhead
+    subst this
+    rw [(selection cfg (some k) sid').mp hsel |>.2] at hskip
+    cases hskip
+  · injection hk' with hk'; subst hk'
+    exact Or.inr ⟨hc, hm⟩
 
-/-- reported ⇒ implemented: whatever `perform_scan` records in a session is a service the ECU implements in
-    exactly that session, found by a probe that the ECU answered meaningfully there -/
-theorem found_supported {e : Ecu σ} (E : SessEcu e) (supp : Nat → Nat → Bool) (R : IsoServiceRule E.ans supp)
-    (cfg : SvcCfg) (hc : cfg.checkSession = false) (session : Option Nat) (s : σ) :
-    ∃ out, performScan e cfg session s = .ok out ∧ E.sess out.state = E.sess s ∧
+/-- for ANY ECU and ANY configuration: everything the whole service scan over a session list sends is a session
+    change into (or a hook request of) a requested, not wholly skipped session, a request of the scan of such a
+    session, a ping of `wait_for_ecu`, or the `--reset` request -/
+theorem scan_requests {e : Ecu σ} {log : σ → List Bytes} {N : Nat} (L : Logs e log N) (cfg : SvcCfg)
+    (sessions : List Nat) (hcfg : cfg.sessions = some sessions) (s : σ) :
+    ∃ new, log (serviceScan e cfg s).1 = new ++ log s ∧
+      ∀ r ∈ new, ScanReq cfg (activeSessions cfg.skip sessions) r := by
+  have := svcSessions_sends L cfg (activeSessions cfg.skip sessions) s
+  unfold GrewBy at this
+  simpa [serviceScan, hcfg] using this
+
+/-- a session that the skip option names as a whole is never requested (hooks that send no `10 ..` themselves) -/
+theorem skipped_session_not_requested {e : Ecu σ} {log : σ → List Bytes} {N : Nat} (L : Logs e log N) (cfg : SvcCfg)
+    (hin : HooksInert cfg.hooks) (sessions : List Nat) (hcfg : cfg.sessions = some sessions)
+    (hsess : ∀ k' ∈ sessions, k' < 256) (s : σ)
+    (k : Nat) (hk0 : k ≠ 0) (hk : k < 256) (hskip : cfg.skip.find k = some none) :
+    ∃ new, log (serviceScan e cfg s).1 = new ++ log s ∧ dscPdu k ∉ new := by
+  obtain ⟨new, h1, h2⟩ := scan_requests L cfg sessions hcfg s
+  refine ⟨new, h1, fun hmem => ?_⟩
+  have hnot : k ∉ activeSessions cfg.skip sessions := by
+    simp [activeSessions, hskip]
+  have hbk : b k ≠ 0 := by
+    intro h; have := congrArg UInt8.toNat h; simp [b] at this; omega
+  have hhook : ∀ k', (dscPdu k ∈ cfg.hooks.pre k' ∨ dscPdu k ∈ cfg.hooks.post k') → False := by
+    intro k' h
+    exact (hin k' _ h).1 (by simp [dscPdu])
+  rcases h2 _ hmem with ⟨k', hk', hreq⟩ | hping | ⟨l, _, hreset⟩
+  · have hlt : k' < 256 := hsess k' (List.mem_filter.mp hk').1
+    have hset : SetReq cfg.hooks k' (dscPdu k) → False := by
+      rintro (h | h | h)
+      · simp only [dscPdu, List.cons.injEq, and_true, true_and] at h
+        exact hnot (b_inj hk hlt h ▸ hk')
+      · exact hhook k' (Or.inl h)
+      · exact hhook k' (Or.inr h)
+    rcases hreq with hreq | hreq
+    · exact hset hreq
+    · rcases hreq with ⟨sid, _, _, l, hl, hp⟩ | ⟨_, k'', hk'', hm⟩
+      · -- a probe is `sid 00 ..`
+        simp only [dscPdu, probePdu] at hp
+        cases l with
+        | zero => simp [probeLengths] at hl
+        | succ l =>
+          simp only [List.replicate_succ, List.cons.injEq] at hp
+          exact hbk hp.2.1
+      · injection hk'' with hk''; subst hk''
+        rcases hm with h | h
+        · simp [dscPdu, readSessionPdu] at h
+        · exact hset h
+  · simp [dscPdu, pingPdu] at hping
+  · simp [dscPdu, resetPdu] at hreset
+
+
+/-! ### what is reported — session-determined ECUs obeying the ISO default rule, any configuration -/
+
+/-- reported ⇒ implemented, for every configuration: whatever `perform_scan` records in a session is a service the ECU
+    implements in exactly that session, found by a probe that the ECU answered meaningfully there — also when the scan
+    was given up by a failed session check.  (With `--check-session` the ECU has to be in the session being scanned when
+    the scan starts, which the session loop guarantees; session hooks must not change the session themselves.) -/
+theorem found_supported {e : Ecu σ} (E : SessEcu e) (supp : Nat → Nat → Bool) (iso : IsoServiceRule E.ans supp)
+    (cfg : SvcCfg) (hin : HooksInert cfg.hooks) (session : Option Nat) (s : σ)
+    (hk : ∀ k, session = some k → cfg.checkSession = true → E.sess s = k ∧ k < 0x80)
+    (out : ScanOut) (hout : (performScan e cfg session s).2 = .ok out) :
+    E.sess (performScan e cfg session s).1 = E.sess s ∧
       ∀ p ∈ out.found, p.1 < 256 ∧ supp (E.sess s) p.1 = true ∧
         ∃ l ∈ probeLengths, p.2 = E.ans (E.sess s) (probePdu p.1 l) ∧ p.2.meaningful = true := by
-  obtain ⟨out, h1, h2, h3, _⟩ := performScanFrom_spec E supp R cfg hc session allSids allSids_lt s
-  refine ⟨out, h1, h2, ?_⟩
+  refine ⟨performScanFrom_session E cfg hin session _ hk allSids allSids_lt s rfl, ?_⟩
+  obtain ⟨h3, _⟩ := performScanFrom_spec E supp iso cfg hin session _ hk allSids allSids_lt s rfl out hout
   intro p hp
   obtain ⟨a, _, c, d, l, hl, hp2⟩ := h3 p hp
   exact ⟨allSids_lt _ a, c, l, hl, hp2, d⟩
 
-/-- implemented ⇒ reported: an implemented, selected service that answers any probe length with something other
-    than a not-supported or length error is recorded -/
-theorem found_complete {e : Ecu σ} (E : SessEcu e) (supp : Nat → Nat → Bool) (R : IsoServiceRule E.ans supp)
-    (cfg : SvcCfg) (hc : cfg.checkSession = false) (session : Option Nat) (s : σ)
+/-- implemented ⇒ reported, for every configuration: when the session read-back is honest (or unsupported) and no probe
+    is answered by an endless ResponsePending sequence, the scan of a session ends normally, is not given up, and
+    records every implemented, selected service that answers any probe length with something other than a
+    not-supported or length error -/
+theorem found_complete {e : Ecu σ} (E : SessEcu e) (supp : Nat → Nat → Bool) (iso : IsoServiceRule E.ans supp)
+    (cfg : SvcCfg) (hin : HooksInert cfg.hooks) (session : Option Nat) (s : σ)
+    (hk : ∀ k, session = some k → cfg.checkSession = true → E.sess s = k ∧ k < 0x80 ∧ ReadBackOk E.ans k)
+    (hn : ∀ sid l, E.ans (E.sess s) (probePdu sid l) ≠ .stuck)
     (sid : Nat) (hs : sid < 256) (hsel : sidSelected cfg session sid = true) (hsup : supp (E.sess s) sid = true)
     (hm : ∃ l ∈ probeLengths, (E.ans (E.sess s) (probePdu sid l)).meaningful = true) :
-    ∃ out, performScan e cfg session s = .ok out ∧ sid ∈ out.found.map (·.1) := by
-  obtain ⟨out, h1, _, _, h4⟩ := performScanFrom_spec E supp R cfg hc session allSids allSids_lt s
-  exact ⟨out, h1, h4 sid (by simp [allSids, hs]) hsel hsup hm⟩
+    ∃ out, (performScan e cfg session s).2 = .ok out ∧ out.abortedAt = none ∧ sid ∈ out.found.map (·.1) := by
+  obtain ⟨out, h1, h2⟩ := performScanFrom_ok E cfg hin session _ hk hn allSids allSids_lt s rfl
+  obtain ⟨_, h4⟩ := performScanFrom_spec E supp iso cfg hin session _
+    (fun k a c => ⟨(hk k a c).1, (hk k a c).2.1⟩) allSids allSids_lt s rfl out h1
+  exact ⟨out, h1, h2, h4 h2 sid (by simp [allSids, hs]) hsel hsup hm⟩
 
-/-- the whole service scan over a session list: always terminates with a result; every reported
-    (session, service) pair names a service the ECU implements in that session and that is neither skipped nor an
-    unrequested response id -/
-theorem scan_sound {e : Ecu σ} (E : SessEcu e) (supp : Nat → Nat → Bool) (R : IsoServiceRule E.ans supp)
-    (cfg : SvcCfg) (hc : cfg.checkSession = false) (sessions : List Nat) (hcfg : cfg.sessions = some sessions)
-    (hlt : ∀ k ∈ sessions, k < 0x80) (s : σ) :
-    ∃ r, serviceScan e cfg s = .ok r ∧
-      ∀ p ∈ r.result, p.1 ∈ activeSessions cfg.skip sessions ∧ p.2 < 256 ∧
-        sidSelected cfg (some p.1) p.2 = true ∧ supp p.1 p.2 = true := by
+/-- with an honest read-back the session check of a session-determined ECU that is in the right session is a single
+    `22 F1 86` exchange: no session change is sent -/
+theorem check_passes_without_session_change {e : Ecu σ} (E : SessEcu e) (h : Hooks) (k retries : Nat) (s : σ)
+    (hs : E.sess s = k) (hrb : ReadBackOk E.ans k) :
+    checkAndSetSession e h k retries s = ((e.step s readSessionPdu).1, .ok true) := by
+  obtain ⟨a, c⟩ := checkAndSetSession_ok E h k retries s hs hrb
+  exact Prod.ext c a
+
+/-- the whole service scan over a session list, every configuration (`--check-session`, `--reset`, inert hooks):
+    every reported (session, service) pair names a requested, not wholly skipped session that the ECU let the scanner
+    enter, and a selected service that the ECU implements in that session and that answered a probe meaningfully -/
+theorem scan_sound {e : Ecu σ} (E : SessEcu e) (supp : Nat → Nat → Bool) (iso : IsoServiceRule E.ans supp)
+    (cfg : SvcCfg) (hin : HooksInert cfg.hooks) (sessions : List Nat) (hcfg : cfg.sessions = some sessions)
+    (hlt : ∀ k ∈ sessions, k < 0x80) (s : σ) (r : SvcResult) (hr : (serviceScan e cfg s).2 = .ok r) :
+    ∀ p ∈ r.result, p.1 ∈ activeSessions cfg.skip sessions ∧ p.2 < 256 ∧
+      sidSelected cfg (some p.1) p.2 = true ∧ supp p.1 p.2 = true ∧
+      (∃ l ∈ probeLengths, (E.ans p.1 (probePdu p.2 l)).meaningful = true) ∧
+      (∃ ss, (E.ans ss (dscPdu p.1)).isPos = true) := by
   have hlt' : ∀ k ∈ activeSessions cfg.skip sessions, k < 0x80 := by
     intro k hk; exact hlt k (List.mem_filter.mp hk).1
-  obtain ⟨r, h1, h2, _⟩ := svcSessions_spec E supp R cfg hc (activeSessions cfg.skip sessions) hlt' s
-  exact ⟨r, by simp [serviceScan, hcfg, h1], h2⟩
+  simp only [serviceScan, hcfg] at hr
+  exact svcSessions_sound E supp iso cfg hin (activeSessions cfg.skip sessions) hlt' s r hr
 
-/-- ... and when the ECU lets the scanner enter the requested sessions, nothing implemented and answering is
-    left out -/
-theorem scan_complete {e : Ecu σ} (E : SessEcu e) (supp : Nat → Nat → Bool) (R : IsoServiceRule E.ans supp)
-    (cfg : SvcCfg) (hc : cfg.checkSession = false) (sessions : List Nat) (hcfg : cfg.sessions = some sessions)
-    (hlt : ∀ k ∈ sessions, k < 0x80) (s : σ)
-    (henter : ∀ ss t, t ∈ activeSessions cfg.skip sessions → (E.ans ss (dscPdu t)).isPos = true)
-    (k sid : Nat) (hk : k ∈ activeSessions cfg.skip sessions) (hs : sid < 256)
-    (hsel : sidSelected cfg (some k) sid = true) (hsup : supp k sid = true)
-    (hm : ∃ l ∈ probeLengths, (E.ans k (probePdu sid l)).meaningful = true) :
-    ∃ r, serviceScan e cfg s = .ok r ∧ (k, sid) ∈ r.result := by
+/-- ... and on an ECU that answers session changes the same way from every session (`enter`), reads the session back
+    honestly and answers hook / reset / ping requests, the run ends normally, no session's scan is given up, and
+    nothing implemented and answering is left out in the sessions the ECU lets the scanner enter -/
+theorem scan_complete {e : Ecu σ} (E : SessEcu e) (supp : Nat → Nat → Bool) (iso : IsoServiceRule E.ans supp)
+    (cfg : SvcCfg) (hin : HooksInert cfg.hooks) (hq : HooksAnswered E.ans cfg.hooks)
+    (sessions : List Nat) (hcfg : cfg.sessions = some sessions) (hlt : ∀ k ∈ sessions, k < 0x80) (s : σ)
+    (enter : Nat → Bool)
+    (henter : ∀ ss t, t ∈ activeSessions cfg.skip sessions → (E.ans ss (dscPdu t)).isPos = enter t)
+    (hrb : cfg.checkSession = true → ∀ k ∈ activeSessions cfg.skip sessions, ReadBackOk E.ans k)
+    (hstuck : ∀ ss sid l, E.ans ss (probePdu sid l) ≠ .stuck)
+    (hreset : ∀ ss l, cfg.reset = some l → E.ans ss (resetPdu l) ≠ .illegal ∧ E.ans ss (resetPdu l) ≠ .stuck)
+    (hping : ∀ ss, E.ans ss pingPdu ≠ .stuck) :
+    ∃ r, (serviceScan e cfg s).2 = .ok r ∧ r.aborted = [] ∧
+      ∀ k sid, k ∈ activeSessions cfg.skip sessions → enter k = true → sid < 256 →
+        sidSelected cfg (some k) sid = true → supp k sid = true →
+        (∃ l ∈ probeLengths, (E.ans k (probePdu sid l)).meaningful = true) → (k, sid) ∈ r.result := by
   have hlt' : ∀ k ∈ activeSessions cfg.skip sessions, k < 0x80 := by
     intro k hk; exact hlt k (List.mem_filter.mp hk).1
-  obtain ⟨r, h1, _, h3⟩ := svcSessions_spec E supp R cfg hc (activeSessions cfg.skip sessions) hlt' s
-  exact ⟨r, by simp [serviceScan, hcfg, h1], h3 henter k hk sid hs hsel hsup hm⟩
+  obtain ⟨r, h1, h2, h3⟩ := svcSessions_complete E supp iso cfg hin hq (activeSessions cfg.skip sessions) hlt' enter
+    henter hrb hstuck hreset hping s
+  exact ⟨r, by simp [serviceScan, hcfg, h1], h2, fun k sid hk hen hs hsel hsup hm => h3 k hk hen sid hs hsel hsup hm⟩
+
+/-- the reported set, exactly: under the hypotheses of `scan_complete` a pair is reported iff its session is requested,
+    not wholly skipped and enterable, and its service is selected, implemented there and answers a probe meaningfully -/
+theorem scan_exact {e : Ecu σ} (E : SessEcu e) (supp : Nat → Nat → Bool) (iso : IsoServiceRule E.ans supp)
+    (cfg : SvcCfg) (hin : HooksInert cfg.hooks) (hq : HooksAnswered E.ans cfg.hooks)
+    (sessions : List Nat) (hcfg : cfg.sessions = some sessions) (hlt : ∀ k ∈ sessions, k < 0x80) (s : σ)
+    (enter : Nat → Bool)
+    (henter : ∀ ss t, t ∈ activeSessions cfg.skip sessions → (E.ans ss (dscPdu t)).isPos = enter t)
+    (hrb : cfg.checkSession = true → ∀ k ∈ activeSessions cfg.skip sessions, ReadBackOk E.ans k)
+    (hstuck : ∀ ss sid l, E.ans ss (probePdu sid l) ≠ .stuck)
+    (hreset : ∀ ss l, cfg.reset = some l → E.ans ss (resetPdu l) ≠ .illegal ∧ E.ans ss (resetPdu l) ≠ .stuck)
+    (hping : ∀ ss, E.ans ss pingPdu ≠ .stuck) :
+    ∃ r, (serviceScan e cfg s).2 = .ok r ∧ ∀ k sid, (k, sid) ∈ r.result ↔
+      (k ∈ activeSessions cfg.skip sessions ∧ enter k = true ∧ sid < 256 ∧ sidSelected cfg (some k) sid = true ∧
+        supp k sid = true ∧ ∃ l ∈ probeLengths, (E.ans k (probePdu sid l)).meaningful = true) := by
+  obtain ⟨r, h1, _, h3⟩ := scan_complete E supp iso cfg hin hq sessions hcfg hlt s enter henter hrb hstuck hreset hping
+  refine ⟨r, h1, fun k sid => ⟨fun hmem => ?_, fun ⟨a, b', c, d, f, g⟩ => h3 k sid a b' c d f g⟩⟩
+  obtain ⟨a, b', c, d, f, ss, g⟩ := scan_sound E supp iso cfg hin sessions hcfg hlt s r h1 (k, sid) hmem
+  exact ⟨a, by rw [← henter ss k a]; exact g, b', c, d, f⟩
+
+/-- `--reset` never changes the reported set: for an ECU as in `scan_exact` the scan with `--reset <level>` and the
+    scan without report the same (session, service) pairs, wherever the reset leaves the ECU -/
+theorem reset_same_result {e : Ecu σ} (E : SessEcu e) (supp : Nat → Nat → Bool) (iso : IsoServiceRule E.ans supp)
+    (cfg : SvcCfg) (hin : HooksInert cfg.hooks) (hq : HooksAnswered E.ans cfg.hooks)
+    (sessions : List Nat) (hcfg : cfg.sessions = some sessions) (hlt : ∀ k ∈ sessions, k < 0x80) (s s' : σ)
+    (enter : Nat → Bool)
+    (henter : ∀ ss t, t ∈ activeSessions cfg.skip sessions → (E.ans ss (dscPdu t)).isPos = enter t)
+    (hrb : cfg.checkSession = true → ∀ k ∈ activeSessions cfg.skip sessions, ReadBackOk E.ans k)
+    (hstuck : ∀ ss sid l, E.ans ss (probePdu sid l) ≠ .stuck)
+    (level : Nat) (hreset : ∀ ss, E.ans ss (resetPdu level) ≠ .illegal ∧ E.ans ss (resetPdu level) ≠ .stuck)
+    (hping : ∀ ss, E.ans ss pingPdu ≠ .stuck) :
+    ∃ r r', (serviceScan e { cfg with reset := some level } s).2 = .ok r ∧
+      (serviceScan e { cfg with reset := none } s').2 = .ok r' ∧ ∀ p, p ∈ r.result ↔ p ∈ r'.result := by
+  obtain ⟨r, h1, h3⟩ := scan_exact E supp iso { cfg with reset := some level } hin hq sessions hcfg hlt s enter henter hrb
+    hstuck (fun ss l hl => by injection hl with hl; subst hl; exact hreset ss) hping
+  obtain ⟨r', h1', h3'⟩ := scan_exact E supp iso { cfg with reset := none } hin hq sessions hcfg hlt s' enter henter hrb
+    hstuck (fun ss l hl => by cases hl) hping
+  refine ⟨r, r', h1, h1', fun p => ?_⟩
+  obtain ⟨k, sid⟩ := p
+  rw [h3 k sid, h3' k sid]
+  rfl
 
 /-- the scan without a session list reports under key 0 what the ECU implements in its current session -/
-theorem scan_sound_current {e : Ecu σ} (E : SessEcu e) (supp : Nat → Nat → Bool) (R : IsoServiceRule E.ans supp)
-    (cfg : SvcCfg) (hc : cfg.checkSession = false) (hcfg : cfg.sessions = none) (s : σ) :
-    ∃ r, serviceScan e cfg s = .ok r ∧ ∀ p ∈ r.result, p.1 = 0 ∧ p.2 < 256 ∧ supp (E.sess s) p.2 = true := by
-  obtain ⟨out, h1, _, h3⟩ := found_supported E supp R cfg hc none s
-  refine ⟨⟨out.found.map (fun p => (0, p.1)), out.clean, out.state⟩, by simp [serviceScan, hcfg, h1], ?_⟩
-  intro p hp
-  simp only [List.mem_map] at hp
-  obtain ⟨q, hq, rfl⟩ := hp
-  obtain ⟨a, c, _⟩ := h3 q hq
-  exact ⟨rfl, a, c⟩
+theorem scan_sound_current {e : Ecu σ} (E : SessEcu e) (supp : Nat → Nat → Bool) (iso : IsoServiceRule E.ans supp)
+    (cfg : SvcCfg) (hin : HooksInert cfg.hooks) (hcfg : cfg.sessions = none) (s : σ)
+    (r : SvcResult) (hr : (serviceScan e cfg s).2 = .ok r) :
+    ∀ p ∈ r.result, p.1 = 0 ∧ p.2 < 256 ∧ supp (E.sess s) p.2 = true := by
+  simp only [serviceScan, hcfg] at hr
+  cases hp : performScan e cfg none s with
+  | mk s1 r1 =>
+    rw [hp] at hr
+    cases r1 with
+    | raised w => simp at hr
+    | ok out =>
+      simp only [Scans.R.ok.injEq] at hr
+      subst hr
+      obtain ⟨_, h3⟩ := found_supported E supp iso cfg hin none s (fun k hk => by cases hk) out (by rw [hp])
+      intro p hpm
+      simp only [List.mem_map] at hpm
+      obtain ⟨q, hq, rfl⟩ := hpm
+      obtain ⟨a, c, _⟩ := h3 q hq
+      exact ⟨rfl, a, c⟩
+
+/-! ### identifier scan -/
 
 /-- the identifiers in the requested range, each with each sub-function of the scanned service, 0x27 clamped
     to 7 bit -/
@@ -153,20 +332,179 @@ theorem ident_pdu_layout (cfg : IdCfg) (did sf : Nat) :
   · intro h; simp [idPdu, h, b]
   · intro h1 h2; simp [idPdu, h1, h2]
 
-/-- the identifier scan of one session sends exactly the requests of the non-skipped identifiers of the range,
-    once each, in order, and counts as positive exactly those the ECU answers positively -/
-theorem ident_count {e : Ecu σ} (E : SessEcu e) (cfg : IdCfg) (hc : cfg.checkSession = none)
+/-- for ANY ECU and ANY configuration: the identifier scan of one session sends nothing but the requests of non-skipped
+    identifiers of the range and — with `--check-session` — the requests of the session check -/
+theorem ident_requests_only {e : Ecu σ} {log : σ → List Bytes} {N : Nat} (L : Logs e log N) (cfg : IdCfg)
+    (session : Option Nat) (s : σ) :
+    ∃ new, log (idPerformScan e cfg session s).1 = new ++ log s ∧
+      ∀ r ∈ new,
+        (∃ q ∈ idPairs cfg, skipped cfg.skip session q.1 = false ∧ r = idPdu cfg q.1 q.2) ∨
+        (∃ k n, session = some k ∧ cfg.checkSession = some n ∧
+          (r = readSessionPdu ∨ r = dscPdu k ∨ r ∈ cfg.hooks.pre k ∨ r ∈ cfg.hooks.post k)) :=
+  idLoop_sends L cfg session (idPairs cfg) {} s
+
+/-- for ANY ECU, `--check-session` and `--skip-not-supported` off: an identifier scan of one session that ends normally
+    has sent exactly the requests of the non-skipped identifiers of the range, once each, in order -/
+theorem ident_requests (e : Ecu σ) (cfg : IdCfg) (hc : cfg.checkSession = none) (hns : cfg.skipNotSupported = false)
+    (session : Option Nat) (s : σ) (log : List Bytes) (out : IdOut)
+    (hout : (idPerformScan (logged e) cfg session (s, log)).2 = .ok out) :
+    out.completed = true ∧
+    (idPerformScan (logged e) cfg session (s, log)).1.2 =
+      (((idPairs cfg).filter fun p => !skipped cfg.skip session p.1).map fun p => idPdu cfg p.1 p.2).reverse ++ log :=
+  idLoop_requests e cfg hc hns session (idPairs cfg) {} (s, log) out hout
+
+/-- the identifier scan of one session, every `--check-session` setting: it completes, stays in the session, and counts
+    as positive exactly the non-skipped identifiers of the requested range that the ECU answers positively -/
+theorem ident_count {e : Ecu σ} (E : SessEcu e) (cfg : IdCfg)
     (hns : cfg.skipNotSupported = false) (hsvc : cfg.service < 256) (h10 : cfg.service ≠ 0x10) (h11 : cfg.service ≠ 0x11)
-    (session : Option Nat) (s : σ) (log : List Bytes) :
-    ∃ out, idPerformScan (logged e) cfg session (s, log) = .ok out ∧ out.completed = true ∧
-      out.state.2 = (((idPairs cfg).filter fun p => !skipped cfg.skip session p.1).map
-          fun p => idPdu cfg p.1 p.2).reverse ++ log ∧
+    (session : Option Nat) (s : σ)
+    (hk : ∀ k n, session = some k → cfg.checkSession = some n → E.sess s = k ∧ ReadBackOk E.ans k)
+    (hstuck : ∀ did sf, E.ans (E.sess s) (idPdu cfg did sf) ≠ .stuck) :
+    ∃ out, (idPerformScan e cfg session s).2 = .ok out ∧ out.completed = true ∧
+      E.sess (idPerformScan e cfg session s).1 = E.sess s ∧
       out.counts.positive = ((idPairs cfg).filter fun p =>
           !skipped cfg.skip session p.1 && (E.ans (E.sess s) (idPdu cfg p.1 p.2)).isPos).length := by
-  obtain ⟨out, h1, h2, _, h4, h5⟩ := idLoop_spec E cfg hc hns hsvc h10 h11 session (idPairs cfg) {} (s, log)
-  exact ⟨out, h1, h2, h4, by simpa using h5⟩
+  obtain ⟨out, h1, h2, h3, h4⟩ := idLoop_count E cfg hns hsvc h10 h11 session (E.sess s) hk hstuck (idPairs cfg) {} s rfl
+  exact ⟨out, h1, h2, h3, by simpa using h4⟩
 
-/-! ### non-vacuity: a concrete ECU in the class, with two sessions and a service answering only long probes -/
+/-- the whole identifier scan over a session list (`set_session`, scan, `leave_session` = reset + wait + default session
+    per session): the positive counters that are logged are, in order, one per session the ECU lets the scanner enter,
+    the number of non-skipped identifiers of the range the ECU answers positively in that session; exit status 0 -/
+theorem ident_scan_counts {e : Ecu σ} (E : SessEcu e) (cfg : IdCfg) (hin : HooksInert cfg.hooks)
+    (hq : HooksAnswered E.ans cfg.hooks) (hns : cfg.skipNotSupported = false) (hsvc : cfg.service < 256)
+    (h10 : cfg.service ≠ 0x10) (h11 : cfg.service ≠ 0x11)
+    (sessions : List Nat) (hcfg : cfg.sessions = some sessions) (hlt : ∀ k ∈ sessions, k < 0x80) (enter : Nat → Bool)
+    (henter : ∀ ss k, k ∈ activeSessions cfg.skip sessions →
+      (E.ans ss (dscPdu k)).isPos = enter k ∧ (E.ans ss (dscPdu k)).exn = none)
+    (hrb : ∀ n, cfg.checkSession = some n → ∀ k ∈ activeSessions cfg.skip sessions, ReadBackOk E.ans k)
+    (hstuck : ∀ ss did sf, E.ans ss (idPdu cfg did sf) ≠ .stuck)
+    (hreset : ∀ ss, (E.ans ss (resetPdu 1)).exn = none) (hping : ∀ ss, E.ans ss pingPdu ≠ .stuck)
+    (hdsc : ∀ ss, (E.ans ss (dscPdu 1)).exn = none) (s : σ) :
+    ∃ r, (identScan e cfg s).2 = .ok r ∧ r.clean = true ∧
+      r.perSession.map (fun x => (x.1, x.2.positive)) =
+        ((activeSessions cfg.skip sessions).filter enter).map (fun k => (k, idCountSpec E.ans cfg (some k) k)) := by
+  have hlt' : ∀ k ∈ activeSessions cfg.skip sessions, k < 0x80 := by
+    intro k hk; exact hlt k (List.mem_filter.mp hk).1
+  obtain ⟨r, h1, h2, h3⟩ := idSessions_counts E cfg hin hq hns hsvc h10 h11 (activeSessions cfg.skip sessions) hlt' enter
+    henter hrb hstuck hreset hping hdsc s
+  exact ⟨r, by simp [identScan, hcfg, h1], h2, h3⟩
+
+/-! ### the client loop between scanner and wire -/
+
+/-- the wire-level form of the request theorems: the real client over a wire ECU that records every transmission is an
+    ECU with a request log, so `probes_only_selected`, `skip_respected`, `scan_requests`, `ident_requests_only` hold for
+    the transmissions (retries included) -/
+theorem wire_logs (w : WireEcu σ) (retry : Bytes → Nat) (M : Nat) (hM : ∀ p, retry p ≤ M) :
+    Logs (clientEcu (wlogged w) retry) (·.2) (M + 1) :=
+  client_logs w retry M hM
+
+/-- ResponsePending during a scan: an ECU that puts fewer than `MAX_N_PENDING` ResponsePending frames in front of its
+    replies (and no busyRepeatRequest behind them) is, above the client, the same ECU as without them — so every scan
+    gives the same result, exit status and sequence of exchanges -/
+theorem pending_transparent (w : WireEcu σ) (hlt : ∀ s p, (w.wstep s p).2.pendings < maxPending)
+    (hb : ∀ s p, (w.wstep s p).2.pendings ≠ 0 → (w.wstep s p).2.final ≠ .neg BRR) (retry : Bytes → Nat)
+    (cfg : SvcCfg) (icfg : IdCfg) (s : σ) :
+    serviceScan (clientEcu w retry) cfg s = serviceScan (clientEcu (stripPending w) retry) cfg s ∧
+    identScan (clientEcu w retry) icfg s = identScan (clientEcu (stripPending w) retry) icfg s := by
+  rw [client_strip w hlt hb retry]
+  exact ⟨rfl, rfl⟩
+
+/-- an exchange — hence a scan — can only end with the client's `RuntimeError` when the ECU answered one transmission
+    with `MAX_N_PENDING` ResponsePending frames in a row -/
+theorem stuck_needs_max_pending (w : WireEcu σ) (retry : Bytes → Nat) (s : σ) (pdu : Bytes)
+    (h : ((clientEcu w retry).step s pdu).2 = .stuck) : ∃ s', maxPending ≤ (w.wstep s' pdu).2.pendings :=
+  exchangeLoop_stuck w pdu _ s h
+
+
+/-! ### `--check-session` against ECUs that lose the session -/
+
+/-- **a passed session check establishes the session.**  For every ECU whose answers are determined by a session
+    component — however that component changes: silent drops, refused re-entries, hooks — that answers the `22 F1 86`
+    read-back honestly and does not change session by answering it: when `check_and_set_session(k)` returns `True`, the
+    ECU is in session `k` -/
+theorem check_establishes_session {e : Ecu σ} (A : AnsBySession e) (hr : ReadsBack A) (hk : Keeps A readSessionPdu)
+    (h : Hooks) (k retries : Nat) (s : σ) (hok : (checkAndSetSession e h k retries s).2 = .ok true) :
+    A.sess (checkAndSetSession e h k retries s).1 = k :=
+  check_establishes A hr hk h k retries s hok
+
+/-- **with `--check-session` on every probe is still sent in the session it is reported under**, as far as that is
+    possible at all: the first (1-byte) probe of every service id, and every probe of a service id whose own probes do
+    not make the ECU leave the session, reaches the ECU in session `k` — for every such ECU, wherever it was when the
+    scan of `k` started and whatever it did to its session in between; also when the scan is given up or dies.
+    (A later probe of a service id whose first probe itself made the ECU drop the session is sent without a new check:
+    that is what the code does, and the property's "exactly in the session it claims" does not hold for such ids.) -/
+theorem probes_in_claimed_session_checked {e : Ecu σ} (A : AnsBySession e) (hr : ReadsBack A)
+    (hk : Keeps A readSessionPdu) (cfg : SvcCfg) (hc : cfg.checkSession = true) (k : Nat)
+    (hm : MaintNotProbe cfg.hooks k) (s : σ) (lg : List (Nat × Bytes)) :
+    ∃ new, (performScan (slogged A) cfg (some k) (s, lg)).1.2 = new ++ lg ∧
+      ∀ x ∈ new, ∀ sid l, x.2 = probePdu sid l → (l = 1 ∨ KeepsProbes A sid) → x.1 = k :=
+  performScanFrom_claimed A hr hk cfg hc k hm allSids (s, lg)
+
+/-- reported ⇒ implemented with `--check-session` on, for ECUs that lose the session: whatever is recorded for a
+    service id whose own probes keep the session was answered in session `k` by a meaningful answer, hence (ISO default
+    rule) is implemented in session `k` — also in a scan that was given up -/
+theorem found_supported_checked {e : Ecu σ} (A : AnsBySession e) (hr : ReadsBack A) (hk : Keeps A readSessionPdu)
+    (supp : Nat → Nat → Bool) (iso : IsoServiceRule A.ans supp)
+    (cfg : SvcCfg) (hc : cfg.checkSession = true) (k : Nat) (s : σ) (out : ScanOut)
+    (hout : (performScan e cfg (some k) s).2 = .ok out) :
+    ∀ p ∈ out.found, KeepsProbes A p.1 →
+      p.1 < 256 ∧ sidSelected cfg (some k) p.1 = true ∧ supp k p.1 = true ∧
+      ∃ l ∈ probeLengths, p.2 = A.ans k (probePdu p.1 l) ∧ p.2.meaningful = true := by
+  intro p hp hkp
+  obtain ⟨h1, h2, l, hl, h3, h4⟩ := performScanFrom_checked A hr hk cfg hc k allSids s out hout p hp hkp
+  refine ⟨allSids_lt _ h1, h2, ?_, l, hl, h3, h4⟩
+  cases hsup : supp k p.1 with
+  | true => rfl
+  | false =>
+    have := iso.unsupported k p.1 (probePdu p.1 l) (allSids_lt _ h1) hsup (probePdu_head p.1 l)
+    rw [← h3] at this
+    cases hp2 : p.2 with
+    | pos _ => rw [hp2] at this; simp [Ans.notSupported] at this
+    | neg c =>
+      rw [hp2] at this h4
+      simp only [Ans.notSupported] at this
+      simp only [Ans.meaningful, this] at h4
+      simp at h4
+    | timeout => rw [hp2] at this; simp [Ans.notSupported] at this
+    | illegal => rw [hp2] at this; simp [Ans.notSupported] at this
+    | stuck => rw [hp2] at this; simp [Ans.notSupported] at this
+
+/-- a session the ECU has lost for good (every read-back says so) gets nothing reported under it by a checked scan.
+    What the code does when the session is lost *during* the scan of `k`: the findings made before the loss stay (they
+    were made in session `k`, see `found_supported_checked`), the scan of `k` ends at the failed check (`abortedAt`),
+    later sessions are still scanned, and the run exits with status 1 (`given_up_scan_exits_1`). -/
+theorem lost_session_reports_nothing {e : Ecu σ} (A : AnsBySession e) (hr : ReadsBack A) (hk : Keeps A readSessionPdu)
+    (cfg : SvcCfg) (hc : cfg.checkSession = true) (k : Nat) (hnever : ∀ s, A.sess s ≠ k) (s : σ) (out : ScanOut)
+    (hout : (performScan e cfg (some k) s).2 = .ok out) : out.found = [] :=
+  performScanFrom_never_in_session A hr hk cfg hc k hnever allSids s out hout
+
+/-- for ANY ECU: a failed session check anywhere in the run makes the run unclean (exit status 1), and the failed check
+    belongs to a selected service id of that session -/
+theorem given_up_scan_exits_1 (e : Ecu σ) (cfg : SvcCfg) (sessions : List Nat) (hcfg : cfg.sessions = some sessions)
+    (s : σ) (r : SvcResult) (hr : (serviceScan e cfg s).2 = .ok r) (hab : r.aborted ≠ []) : r.clean = false := by
+  simp only [serviceScan, hcfg] at hr
+  exact svcSessions_aborted_unclean e cfg _ s r hr hab
+
+/-! ### termination with a bound -/
+
+/-- for ANY ECU with a request log and ANY configuration: the whole service scan sends at most `N * svcBound` requests
+    (`N = 1` counting exchanges, `N = max_retry + 1` counting transmissions): per session the session change with its
+    hook requests, per service id the session check (1 + 4 rounds of re-entry and read-back) and four probes, the
+    reset and fewer than 20 pings -/
+theorem requests_bounded {e : Ecu σ} {log : σ → List Bytes} {N : Nat} (L : Logs e log N) (cfg : SvcCfg)
+    (sessions : List Nat) (hcfg : cfg.sessions = some sessions) (s : σ) :
+    (log (serviceScan e cfg s).1).length ≤ (log s).length + N * svcBound cfg (activeSessions cfg.skip sessions) := by
+  have := svcSessions_within L cfg (activeSessions cfg.skip sessions) s
+  simpa [serviceScan, hcfg, Within] using this
+
+/-- the bound with the base-class hooks: 3349 exchanges per session with `--check-session`, 1045 without -/
+example (cfg : SvcCfg) (hh : cfg.hooks = {}) (k : Nat) :
+    sessionCost cfg k = if cfg.checkSession then 3349 else 1045 := by
+  cases hc : cfg.checkSession <;>
+    simp [sessionCost, setCost, hookCost, sidCost, checkCost, resetCost, waitBudget, checkRetries, probeLengths, hh, hc]
+
+/-! ### non-vacuity: a concrete ECU in the class, with two sessions, a service answering only long probes and an
+    honest session read-back -/
 
 namespace Example
 
@@ -175,6 +513,11 @@ def ans (ss : Nat) (p : Bytes) : Ans :=
   | [0x10, 0x02] => .pos [0x50, 0x02]
   | [0x10, 0x01] => .pos [0x50, 0x01]
   | 0x10 :: _ => .neg SFNS
+  | [0x11, 0x01] => .pos [0x51, 0x01]
+  | 0x11 :: _ => .neg SFNS
+  | [0x3E, 0x00] => .pos [0x7E, 0x00]
+  | 0x3E :: _ => .neg SFNS
+  | [0x22, 0xF1, 0x86] => if ss = 2 then .pos [0x62, 0xF1, 0x86, 0x02] else .neg SNSIAS
   | 0x22 :: rest => if ss = 2 then (if rest.length < 2 then .neg IMLOIF else .neg ROOR) else .neg SNSIAS
   | _ => .neg SNS
 
@@ -182,16 +525,25 @@ def nextSess (ss : Nat) (p : Bytes) : Nat :=
   match p with
   | [0x10, 0x02] => 2
   | [0x10, 0x01] => 1
+  | [0x11, 0x01] => 1
   | _ => ss
 
 def ecu : Ecu Nat := ⟨fun ss p => (nextSess ss p, ans ss p)⟩
 
-def supp (ss sid : Nat) : Bool := sid == 0x10 || (ss == 2 && sid == 0x22)
+def supp (ss sid : Nat) : Bool := sid == 0x10 || sid == 0x11 || sid == 0x3E || (ss == 2 && sid == 0x22)
 
 def cfg : SvcCfg := { sessions := some [1, 2], checkSession := false, scanResponseIds := false, skip := [(1, some [0x10])] }
 
 /-- the scan of this ECU: 0x10 in session 1 is skipped, session 2 offers 0x10 and 0x22 (found by the 2-byte probe) -/
-example : (match serviceScan ecu cfg 1 with | .ok r => r.result | .raised _ => []) = [(2, 0x10), (2, 0x22)] := by
+example : (match (serviceScan ecu cfg 1).2 with | .ok r => r.result | .raised _ => []) =
+    [(1, 0x11), (1, 0x3E), (2, 0x10), (2, 0x11), (2, 0x22), (2, 0x3E)] := by
+  decide +kernel
+
+/-- the same with `--check-session`, `--reset 1` and session hooks: same report, the ECU ends in the default session -/
+example : (match serviceScan ecu { cfg with checkSession := true, reset := some 1,
+                                             hooks := { pre := fun _ => [[0x3E, 0x00]], post := fun _ => [[0x85, 0x02]] } } 1 with
+           | (s, .ok r) => (s, r.result, r.clean, r.aborted) | (s, .raised _) => (s, [], false, [])) =
+    (1, [(1, 0x11), (1, 0x3E), (2, 0x10), (2, 0x11), (2, 0x22), (2, 0x3E)], true, []) := by
   decide +kernel
 
 /-- the example ECU is session-determined in the sense of `SessEcu` -/
@@ -200,7 +552,7 @@ def sessEcu : SessEcu ecu where
   ans := ans
   step_ans := fun _ _ => rfl
   sess_keep := by
-    intro s p h10 _
+    intro s p h10 h11
     show nextSess s p = s
     unfold nextSess
     split <;> simp_all
@@ -234,6 +586,13 @@ theorem b_eq_iff (sid : Nat) (h : sid < 256) (k : Nat) (hk : k < 256) : b sid = 
   · intro hh; exact b_inj h hk hh
   · intro hh; subst hh; rfl
 
+/-- the read-back of both sessions is honest (session 2) or unsupported (session 1): the hypothesis of the
+    completeness theorems is satisfiable -/
+example : ReadBackOk ans 1 ∧ ReadBackOk ans 2 := by
+  constructor
+  · simp [ReadBackOk, ans, readSessionPdu, identifierNotSupportedCodes, SNS, SNSIAS, SFNS, SFNSIAS, ROOR]
+  · simp [ReadBackOk, ans, readSessionPdu, fromBE]
+
 /-- ... and obeys the ISO default rule for its service table -/
 theorem isoRule : IsoServiceRule ans supp where
   unsupported := by
@@ -244,14 +603,18 @@ theorem isoRule : IsoServiceRule ans supp where
       simp only [List.head?_cons, Option.some.injEq] at hh
       subst hh
       simp only [supp, Bool.or_eq_false_iff, Bool.and_eq_false_iff, beq_eq_false_iff_ne] at hs
-      obtain ⟨h10, h22⟩ := hs
+      obtain ⟨⟨⟨h10, h11⟩, h3e⟩, h22⟩ := hs
       have e10 : b sid ≠ 0x10 := fun hh => h10 ((b_eq_iff sid hlt 0x10 (by decide)).mp hh)
+      have e11 : b sid ≠ 0x11 := fun hh => h11 ((b_eq_iff sid hlt 0x11 (by decide)).mp hh)
+      have e3e : b sid ≠ 0x3E := fun hh => h3e ((b_eq_iff sid hlt 0x3E (by decide)).mp hh)
+      have hs2 : b sid = 0x22 → ¬ ss = 2 := by
+        intro hb
+        have hsid : sid = 0x22 := (b_eq_iff sid hlt 0x22 (by decide)).mp hb
+        rcases h22 with h | h
+        · exact h
+        · exact absurd hsid h
       unfold ans
       split <;> simp_all [Ans.notSupported, serviceNotSupportedCodes, SNS, SNSIAS]
-      · rename_i hss
-        have hsid : sid = 0x22 := (b_eq_iff sid hlt 0x22 (by decide)).mp hss.1
-        have hs2 : ¬ ss = 2 := by rcases h22 with h | h; exact h; exact absurd hsid h
-        simp [hs2]
   supported := by
     intro ss sid p hlt hs hh
     cases p with
@@ -261,15 +624,76 @@ theorem isoRule : IsoServiceRule ans supp where
       subst hh
       simp only [supp, Bool.or_eq_true, Bool.and_eq_true, beq_iff_eq] at hs
       unfold ans
-      rcases hs with rfl | ⟨rfl, rfl⟩
+      rcases hs with ((rfl | rfl) | rfl) | ⟨rfl, rfl⟩
       · split <;> simp_all [Ans.notSupported, serviceNotSupportedCodes, SNS, SNSIAS, SFNS, b]
-      · split <;> simp_all [Ans.notSupported, serviceNotSupportedCodes, SNS, SNSIAS, IMLOIF, ROOR, b]
+      · split <;> simp_all [Ans.notSupported, serviceNotSupportedCodes, SNS, SNSIAS, SFNS, b]
+      · split <;> simp_all [Ans.notSupported, serviceNotSupportedCodes, SNS, SNSIAS, SFNS, b]
+      · by_cases hl : rest.length < 2 <;>
+          (split <;> simp_all [Ans.notSupported, serviceNotSupportedCodes, SNS, SNSIAS, IMLOIF, ROOR, b])
         all_goals
-          rename_i rest' _
-          by_cases hl : rest'.length < 2
-          · simp [hl]
-          · simp [hl]
+          rename_i _ r _ _
+          have h2 : ¬ r.length < 2 := by omega
+          simp [h2]
+
+/-- session changes are answered the same way from every session -/
+example : ∀ ss, (ans ss (dscPdu 1)).isPos = true ∧ (ans ss (dscPdu 2)).isPos = true := fun _ => ⟨rfl, rfl⟩
 
 end Example
+
+/-! ### non-vacuity of the `--check-session` theorems: an ECU that falls back to the default session whenever it
+    receives a CommunicationControl (0x28) request.  Service 0x2E exists only in session 1, service 0x31 only in
+    session 2. -/
+
+namespace Dropping
+
+def sessOf (s : Bool) : Nat := if s then 2 else 1
+
+def ans (ss : Nat) (p : Bytes) : Ans :=
+  match p with
+  | [0x10, 0x02] => .pos [0x50, 0x02]
+  | [0x10, 0x01] => .pos [0x50, 0x01]
+  | [0x22, 0xF1, 0x86] => .pos [0x62, 0xF1, 0x86, b ss]
+  | 0x2E :: _ => if ss = 1 then .neg 0x33 else .neg SNSIAS
+  | 0x31 :: _ => if ss = 2 then .neg 0x33 else .neg SNSIAS
+  | _ => .neg SNS
+
+def next (s : Bool) (p : Bytes) : Bool :=
+  match p with
+  | [0x10, 0x02] => true
+  | [0x10, 0x01] => false
+  | 0x28 :: _ => false
+  | _ => s
+
+def ecu : Ecu Bool := ⟨fun s p => (next s p, ans (sessOf s) p)⟩
+
+def A : AnsBySession ecu := ⟨sessOf, ans, fun _ _ => rfl⟩
+
+theorem readsBack : ReadsBack A := by
+  intro s
+  cases s <;> exact ⟨_, rfl, by decide⟩
+
+theorem keepsReadback : Keeps A readSessionPdu := fun s => by cases s <;> rfl
+
+def cfg (check : Bool) : SvcCfg := { sessions := some [2], checkSession := check, scanResponseIds := false, skip := [] }
+
+/-- without `--check-session` the probe of 0x28 throws the ECU back to session 1 unnoticed and 0x2E, which exists only
+    there, is reported under session 2; 0x31, which exists in session 2, is missed -/
+example : (match (serviceScan ecu (cfg false) false).2 with | .ok r => (r.result, r.clean) | .raised _ => ([], false)) =
+    ([(2, 0x2E)], true) := by decide +kernel
+
+/-- with `--check-session` the loss is noticed before the next service id, the session is re-entered, and the report
+    is the truth about session 2 -/
+example : (match (serviceScan ecu (cfg true) false).2 with | .ok r => (r.result, r.clean) | .raised _ => ([], false)) =
+    ([(2, 0x31)], true) := by decide +kernel
+
+/-- 0x2E and 0x31 are service ids whose probes keep the session; 0x28 is not -/
+example : KeepsProbes A 0x2E ∧ KeepsProbes A 0x31 ∧ ¬ KeepsProbes A 0x28 := by
+  refine ⟨fun l s => by cases s <;> rfl, fun l s => by cases s <;> rfl, fun h => ?_⟩
+  have := h 1 true
+  simp [A, ecu, next, sessOf, probePdu, b] at this
+
+example : MaintNotProbe (cfg true).hooks 2 := ⟨by decide, by decide, by intro p hp; simp [cfg] at hp⟩
+
+end Dropping
 
 end Gallia.C10
